@@ -22,7 +22,25 @@ SETTINGS = {
     'mix': [['Gradient 1', 'normal', 50, 3], ['Utilization Factor', 'uniform', 0.7, 0.95], ['Ambient Temperature', 'triangular', 5, 15, 25],
             ['Reservoir Depth', 'lognormal', 1.0, 0.05], ['Number of Injection Wells', 'binomial', 3, 0.6]],
 }
+# '#' in place of the mean / mode: "then value from the Input_file as the mode/mean" (main() docstring)
+HASH_SETTINGS = {
+    'hash-normal': ('elec', [['Gradient 1', 'normal', '#', 3]]),
+    'hash-triangular': ('elec', [['Reservoir Depth', 'triangular', 2.5, '#', 3.5], ['Gradient 1', 'uniform', 40, 60]]),
+    'hash-prefix': ('elecvol', [['Reservoir Volume', 'normal', '#', 1e7], ['Gradient 1', 'uniform', 40, 60]]),
+}
 OUTPUTS = ['Average Net Electricity Production', 'Electricity breakeven price']
+
+
+def resolve_inputs(spec):
+    """the settings with every '#' replaced by the value the base input gives to that parameter (exact name)"""
+    base = {}
+    for l in MC.BASES[spec['base']][1]:
+        n, _, v = l.partition(',')
+        base.setdefault(n.strip(), v.split(',')[0].strip())
+    out = []
+    for i in spec['inputs']:
+        out.append([i[0], i[1]] + [float(base[i[0]]) if str(x).strip() == '#' else x for x in i[2:]])
+    return out
 
 
 def in_support(dist, params, x):
@@ -43,7 +61,7 @@ def in_support(dist, params, x):
 def judge(spec, r, res):
     """oracle for one main() execution."""
     K = spec['K']
-    inputs = spec['inputs']
+    inputs = resolve_inputs(spec)
     ok_tasks = [o for o in r['outcomes'] if o[2] == 'ok'] if not spec.get('real_pool') else None
     if r['file'] is None:
         check.fail(res, 'mc/no-result-file', f'no result file; main: {r["main_exc"]}')
@@ -131,6 +149,11 @@ def plan(tier, seed):
             specs = [{'tag': tag, 'base': 'elec', 'inputs': inputs, 'outputs': OUTPUTS, 'K': K, 'assignment': a, 'seed': seed} for a in parts]
             for i in range(0, len(specs), 4):
                 P.append({'kind': 'e3', 'specs': specs[i:i + 4]})
+    for tag, (base, inputs) in HASH_SETTINGS.items():
+        K = Ks[0]
+        specs = [{'tag': tag, 'base': base, 'inputs': inputs, 'outputs': OUTPUTS, 'K': K, 'assignment': a, 'seed': seed} for a in poolx.set_partitions(K, 2)]
+        for i in range(0, len(specs), 4):
+            P.append({'kind': 'e3', 'specs': specs[i:i + 4]})
     # conformance of the controlled pool: free-running real pool
     for rep in range(2 if tier == 'quick' else 5):
         P.append({'kind': 'e3', 'specs': [{'tag': 'mix', 'base': 'elec', 'inputs': SETTINGS['mix'], 'outputs': OUTPUTS, 'K': 6,
@@ -152,7 +175,7 @@ def run(tier, seed, budget=None):
     return e1.run_generic(
         sys.modules[__name__], PID, tier, seed, budget,
         rule=('E3: real Monte-Carlo main() under a fork-faithful controlled pool for every settings file in {normal, uniform, triangular, '
-              'lognormal, binomial(+uniform), mix of five} x K iterations x ALL assignments of iterations to <=W workers (set partitions; '
+              'lognormal, binomial(+uniform), mix of five, three with "#" for the mean/mode} x K iterations x ALL assignments of iterations to <=W workers (set partitions; '
               'quick K in {3,4}, W=3; thorough K in {4,5,6}, W=4); E4: all interleavings of the real pylocker row-append protocol for 2 '
               'workers up to 3 preemptions (thorough: 4, and 3 workers up to 2), with and without a failing iteration; plus free-running real '
               'ProcessPoolExecutor runs. Non-trivial = assignment that uses several workers / interleaving with >=1 preemption; states = '
